@@ -19,6 +19,7 @@ DECIDES = ('grid, quad and triangle index arithmetic follows the sample grid lay
 NOT_DECIDED = 'Euler characteristic, orientation, exact tiling, that vertex positions equal the surface (needs C01), trimmed region vs cell size, normals\' direction: geometric/numerical.'
 TECHNIQUE = 'stride rule on preallocated arrays, axis tags, writer structure rules, branch equivalence; bounded index-skeleton interpretation'
 DECIDES += (" [ABSTRACT INTERPRETATION] MSH2: make_triangle_mesh on labelled grids of every size and admissible spacing gives vertex k of the strided grid the input point, the parametric position and the id of its own grid position and hands every cell's corners (a,b), (a+1,b), (a+1,b+1), (a,b+1) to the tessellation function once; MX2: the OBJ / OFF / ASCII-STL text produced for an abstract container of three surfaces with different vertex counts parses back to every vertex once in surface order, faces that refer to the vertices of their own surface and (OFF) the declared counts (LY1p, QC1, PJ1, FN1, AG6 only corroborate).")
+DECIDES += (' QM2: make_quad_mesh on labelled grids (one quad per cell, corners of that cell in cyclic order); FN2: triangle_normal is a positive multiple of (v1 - v0) x (v2 - v1) on symbolic vertices, every threshold comparison taken both ways; CT2: the container aggregate is numbered afresh on every rebuild (OFF1 corroborates).')
 
 
 def site(fi, node=None):
